@@ -146,7 +146,18 @@ structure SRoute where
   ctrlPath : String
   r      : RRoute
   infos  : List PInfo
+  /-- what the operation itself does once it is called (the controller body is a PARAMETER of the handler): a status
+      it sets through `SetStatus`, and whether it returns an error -/
+  setStatus : Option Nat := none
+  fails  : Bool := false
   deriving Repr, Inhabited
+
+/-- `getStatusCode`: the status the operation set itself, else 500 for a failed operation, else 200 / 204 by the
+    shape of the method (the @Response code is documentation only) - the same function in all five templates -/
+def replyStatus (sr : SRoute) : Nat :=
+  match sr.setStatus with
+  | some s => s
+  | none => if sr.fails then 500 else if sr.r.hasReturn then 200 else 204
 
 def denyCallback (deny : List String) : Callback := fun _ c => if deny.contains c.scheme then some ("denied " ++ c.scheme) else none
 
@@ -160,7 +171,7 @@ def serveRoute (enums : List String) (sr : SRoute) (bound : List (String × Stri
     | none => .invalid asked
     -- `getStatusCode`: 200 / 204 by the shape of the method unless the controller sets a status itself;
     -- the @Response code is documentation only
-    | some args => .called asked (sr.ctrl ++ "." ++ sr.r.opId) args (if sr.r.hasReturn then 200 else 204)
+    | some args => .called asked (sr.ctrl ++ "." ++ sr.r.opId) args (replyStatus sr)
 
 def findRoute (routes : List SRoute) (rq : Req) : Option (SRoute × List (String × String)) :=
   routes.findSome? fun sr =>
@@ -230,6 +241,6 @@ def serveRouteA (enums : List String) (cb : Callback) (acc : Accessors) (sr : SR
   | none =>
     match bindAllA enums acc sr.infos with
     | none => .invalid asked
-    | some args => .called asked (sr.ctrl ++ "." ++ sr.r.opId) args (if sr.r.hasReturn then 200 else 204)
+    | some args => .called asked (sr.ctrl ++ "." ++ sr.r.opId) args (replyStatus sr)
 
 end Gleece.Serve
